@@ -151,6 +151,8 @@ class Expander:
         self.parsed = {}      # sitekey -> token tree (unexpanded)
         self.errors = []
         self.expanded_sites = set()
+        self.memo = {}
+        self.cut_stack = []
 
     def site_tree(self, sitekey):
         if sitekey not in self.parsed:
@@ -172,6 +174,23 @@ class Expander:
 
     def expand(self, sitekey, envid, stack=()):
         """-> list of elements (tok/group/leaf/choice/rep), every element tagged with its site"""
+        mk = (sitekey, envid)
+        hit = self.memo.get(mk)
+        if hit is not None and not (hit[1] & set(stack)):
+            return hit[0]
+        self.cut_stack.append(set())
+        res = self._expand(sitekey, envid, stack)
+        cuts = self.cut_stack.pop()
+        # sites whose expansion was cut because they are on the stack: the result is valid for any stack that
+        # contains them... keep it simple: cache only cut-free results, or results whose cuts are all self-cuts
+        below = cuts - {sitekey}
+        if self.cut_stack:
+            self.cut_stack[-1] |= below
+        if not below:
+            self.memo[mk] = (res, set())
+        return res
+
+    def _expand(self, sitekey, envid, stack=()):
         fn, node = self.pv.sites[sitekey]
         self.expanded_sites.add(sitekey)
         env = self.pv.envs[envid]
@@ -200,6 +219,8 @@ class Expander:
                         tag = leaf[0]
                         if tag == 'tmpl':
                             if leaf[1] in stack2:
+                                if self.cut_stack:
+                                    self.cut_stack[-1].add(leaf[1])
                                 alts.append((conds, [{'t': 'leaf', 'kind': 'rec', 'term': leaf, 'site': sitekey,
                                                       'name': el['name']}]))
                             else:
